@@ -76,6 +76,10 @@ def extract(repo=None, config="default", target_dir=None, quiet=True):
     out = os.path.join(CACHE, "facts", key)
     marker = os.path.join(out, "DONE")
     if os.path.exists(marker):
+        try:
+            os.utime(out, None)
+        except OSError:
+            pass
         return out
     os.makedirs(CACHE, exist_ok=True)
     # VERIF_TARGET_SUFFIX: the regression runners (tools/run_seeds.py, run_refactors.py) analyse several scratch copies at once and
@@ -171,13 +175,19 @@ def extract_fixture(fdir=None):
         lock.close()
 
 
-def _prune_cache(keep, maxn=12):
+def _prune_cache(keep, maxn=48, min_age_s=1800):
+    """least-recently-used pruning; an entry somebody loaded during the last half hour is never removed (several checks and the
+    regression runners work on different trees at the same time)"""
     d = os.path.join(CACHE, "facts")
-    ents = [os.path.join(d, x) for x in os.listdir(d) if ".tmp" not in x]
+    ents = [os.path.join(d, x) for x in os.listdir(d) if ".tmp" not in x and not x.startswith("fx-")]
     ents.sort(key=lambda p: os.path.getmtime(p))
+    now = time.time()
     for p in ents[:-maxn]:
-        if p != keep:
-            shutil.rmtree(p, ignore_errors=True)
+        try:
+            if p != keep and now - os.path.getmtime(p) > min_age_s:
+                shutil.rmtree(p, ignore_errors=True)
+        except OSError:
+            pass
 
 
 # ---------------------------------------------------------------------------------------------
@@ -629,6 +639,15 @@ _loaded = {}
 def load(config="default", repo=None):
     key = (config, repo or REPO)
     if key not in _loaded:
-        d = extract(repo=repo, config=config)
-        _loaded[key] = Program(d)
+        for attempt in (0, 1):
+            d = extract(repo=repo, config=config)
+            try:
+                os.utime(d, None)          # mark as recently used
+                _loaded[key] = Program(d)
+                break
+            except FileNotFoundError:
+                # the cache entry vanished under us (pruned by a concurrent run): extract again
+                shutil.rmtree(d, ignore_errors=True)
+                if attempt:
+                    raise
     return _loaded[key]
